@@ -57,9 +57,47 @@ template<typename T> static void search(const char *tn, T base, int& bad_set, in
 		for (int hi = lo; hi < 6 && !bad_range; ++hi)
 			for (int w = -1; w <= 7 && !bad_range; ++w) bad_range |= check_range<T>((T)(base + lo), (T)(base + hi), (T)(base + w), tn);
 }
+// Field<T, tag>::get_rlm_idx() / is_valid(): the field's own value against its own realm (virtual overrides, real classes)
+template<typename F, typename T, typename V> static int check_field(const std::vector<T>& tab, V value, T wire, const char *tn)
+{
+	T *raw = (T *)malloc(tab.size() * sizeof(T));
+	memcpy(raw, tab.data(), tab.size() * sizeof(T));
+	const RealmBase rb(raw, RealmBase::dt_set, FieldTrait::ft_int, (int)tab.size(), descs);
+	F f(value, &rb);
+	const BaseField& bf(f);
+	const int idx = bf.get_rlm_idx();
+	int member = -1;
+	for (size_t i = 0; i < tab.size(); ++i) if (tab[i] == wire) member = (int)i;
+	if (idx != member)
+	{
+		printf("{\"type\":\"Field<%s>\",\"table\":[", tn);
+		for (size_t i = 0; i < tab.size(); ++i) printf("%s%d", i ? "," : "", (int)tab[i]);
+		printf("],\"value_wire\":%d,\"get_rlm_idx\":%d,\"expected_idx\":%d,\"mismatch\":true}\n", (int)wire, idx, member);
+	}
+	free(raw);
+	return idx != member;
+}
+static int search_fields()
+{
+	int bad = 0;
+	for (unsigned mask = 1; mask < 64 && !bad; ++mask)
+	{
+		std::vector<int> ti; std::vector<char> tc, tb;
+		for (int b = 0; b < 6; ++b) if (mask & (1u << b)) { ti.push_back(-3 + 2 * b); tc.push_back((char)('A' + 2 * b)); }
+		static const char bl[] = { 'A', 'N', 'P', 'Y', 'Z', 'y' };
+		for (int b = 0; b < 6; ++b) if (mask & (1u << b)) tb.push_back(bl[b]);
+		for (int w = -5; w <= 9 && !bad; ++w) bad |= check_field<Field<int, 34>, int, int>(ti, -3 + w, -3 + w, "int");
+		for (int w = -2; w <= 12 && !bad; ++w) bad |= check_field<Field<char, 54>, char, char>(tc, (char)('A' + w), (char)('A' + w), "char");
+		bad |= check_field<Field<Boolean, 43>, char, char>(tb, 'Y', 'Y', "Boolean");
+		bad |= check_field<Field<Boolean, 43>, char, char>(tb, 'N', 'N', "Boolean");
+	}
+	printf("{\"search_done\":true,\"class\":\"field\",\"mismatch\":%s}\n", bad ? "true" : "false");
+	return bad;
+}
 int main(int argc, char **argv)
 {
 	if (argc < 2 || strcmp(argv[1], "search")) return 2;
+	if (argc > 2 && !strcmp(argv[2], "field")) return search_fields();
 	int bs = 0, br = 0;
 	only = argc > 2 ? (!strcmp(argv[2], "set") ? 1 : 2) : 0;
 	if (argc > 2) range_class = !strcmp(argv[2], "range_member") ? 1 : !strcmp(argv[2], "range_first") ? 2 : !strcmp(argv[2], "range_valid") ? 3 : 0;
